@@ -1,11 +1,71 @@
 import Aplang.Model.Value
-/-! STUB — replaced by the real module -/
+/-!
+# MAP cells  (src: standard_library/map.rs, `type ApLangMap = HashMap<Value, Value>`)
+
+One map cell is an association list.  What of `std::collections::HashMap<Value, Value>` is modelled:
+
+* `get` / `contains_key` / `insert` find an entry iff its key has the same hash **and** is `Eq`-equal to the
+  query key.  `Eq for Value` is `keyEq` (IEEE `==` on numbers: `NaN ≠ NaN`, `0 == -0`).
+  **Assumption of the model: `Hash for Value` is consistent with `Eq for Value`** (`a == b → hash a = hash b`),
+  so the hash never hides an `Eq`-equal entry and lookup is "first entry whose key is `keyEq` to the query".
+  (The shipped `Hash` writes `n.to_bits()` for numbers, so `0.0` and `-0.0` hash differently although they are
+  `Eq`; the repository fix hashes `-0.0` as `0.0`.  In `Thm/C16.lean`: `hashOrig_inconsistent` is the kernel-checked
+  witness, `hashFixed_consistent` proves the assumption for the fixed hash, and `findH?_eq_find?` shows that under a
+  consistent hash the hashed lookup is this `find?`.)
+* `insert(k, v)` on a map that already has an `Eq`-equal key keeps the **old key object** and replaces only the
+  value, returning the old value; otherwise it adds the entry and returns `None` (→ `NULL` in map.rs).
+* iteration order (`keys()`, `values()`) is unspecified in Rust; here it is insertion order and
+  `MAP_KEYS` / `MAP_VALUES` are compared as multisets.  `keys()` and `values()` iterate the same table, so the
+  i-th key belongs to the i-th value.
+
+The direction of the comparison (`stored == query` or `query == stored`) is immaterial: `keyEq` is symmetric
+(`Proofs/FloatEq.lean`).
+-/
 namespace Aplang.MapCell
+
+/-- one map cell; insertion order kept -/
 abbrev AMap := List (Value × Value)
-def find? (m : AMap) (k : Value) : Option (Value × Value) := m.find? (fun e => keyEq e.1 k)
-def insert (m : AMap) (k v : Value) : AMap × Value := (m ++ [(k, v)], .null)
-def get (m : AMap) (k : Value) : Value := match find? m k with | some e => e.2 | none => .null
+
+/-- first entry whose key is `keyEq` to `k` -/
+def find? : AMap → Value → Option (Value × Value)
+  | [], _ => none
+  | e :: m, k => if keyEq e.1 k then some e else find? m k
+
+/-- src: `map.insert(key, value).unwrap_or(Value::Null)` — (new map, old value or NULL);
+existing key object kept, value replaced in place; new entries go to the end -/
+def insert : AMap → Value → Value → AMap × Value
+  | [], k, v => ([(k, v)], .null)
+  | e :: m, k, v =>
+    if keyEq e.1 k then ((e.1, v) :: m, e.2)
+    else ((e :: (insert m k v).1), (insert m k v).2)
+
+/-- src: `map.get(key).cloned().unwrap_or(Value::Null)` -/
+def get (m : AMap) (k : Value) : Value :=
+  match find? m k with
+  | some e => e.2
+  | none => .null
+
+/-- src: `map.contains_key(key)` -/
 def containsKey (m : AMap) (k : Value) : Bool := (find? m k).isSome
+
+/-- src: `map.keys().cloned().collect()` (order: see module doc) -/
 def keys (m : AMap) : List Value := m.map (·.1)
+
+/-- src: `map.values().cloned().collect()` -/
 def values (m : AMap) : List Value := m.map (·.2)
+
+/-! ## the map argument (src: std_macros.rs `unwrap_arg_type!(… => Value::NativeObject<ApLangMap>)`) -/
+
+/-- the two "Invalid Argument Cast" / "Invalid NATIVE_OBJECT variety" runtime errors -/
+inductive ArgErr
+  | notNativeObject     -- "Argument Value (map) is not of type NATIVE_OBJECT<A>"
+  | wrongVariety        -- "This argument is a NATIVE_OBJECT but not the correct variety"
+deriving DecidableEq, Repr
+
+/-- first argument of every MAP_* function: must be a native object whose cell is a map
+(`isMap addr` = `downcast_ref::<ApLangMap>().is_some()`); yields the address of the map cell -/
+def mapArg (isMap : Nat → Bool) : Value → Except ArgErr Nat
+  | .obj a => if isMap a then .ok a else .error .wrongVariety
+  | _ => .error .notNativeObject
+
 end Aplang.MapCell
